@@ -175,7 +175,7 @@ class MayRaise:
                     if p.arg == t[1]:
                         return ann_type(self.prog, p.annotation, f)
                 f = f.parent
-            return ANY
+            return self.comp_target_type(t[1])
         if k == "attr":
             bt = self.type_of(t[1], facts, events)
             out: set = set()
@@ -277,6 +277,38 @@ class MayRaise:
             return frozenset({X})
         if k in ("comp", "lambda"):
             return ANY
+        return ANY
+
+    def comp_target_type(self, name: str) -> frozenset:
+        """type of a comprehension variable: the element type of what it iterates over - a parameter annotated
+        `Iterable[X]` / `list[X]`, or a local bound once to a comprehension whose element is a regex search"""
+        def comps_of(fn: FuncInfo) -> list:
+            return [(fn, g) for n in ast.walk(fn.node) if isinstance(n, (ast.ListComp, ast.SetComp, ast.GeneratorExp, ast.DictComp)) for g in n.generators if isinstance(g.target, ast.Name) and g.target.id == name]
+
+        comps = comps_of(self.fi)
+        if not comps:
+            # the variable of a comprehension in a helper that was inlined here (same package)
+            pkg = self.fi.module.name.rsplit(".", 1)[0]
+            comps = [c for fn in {id(f): f for f in self.prog.funcs.values()}.values() if fn is not self.fi and fn.module.name.rsplit(".", 1)[0] == pkg for c in comps_of(fn)]
+        if len(comps) != 1:
+            return ANY
+        owner, g0 = comps[0]
+        it = g0.iter
+        if isinstance(it, ast.Name):
+            binds = [n.value for n in self.prog._own_nodes(owner.node) if isinstance(n, ast.Assign) and len(n.targets) == 1 and isinstance(n.targets[0], ast.Name) and n.targets[0].id == it.id]
+            if len(binds) == 1:
+                it = binds[0]
+            else:
+                for p in owner.params():
+                    if p.arg == it.id and isinstance(p.annotation, ast.Subscript) and ast.unparse(p.annotation.value).split(".")[-1] in ("Iterable", "Sequence", "list", "List", "Iterator", "Collection"):
+                        return ann_type(self.prog, p.annotation.slice, owner)
+                return ANY
+        if isinstance(it, (ast.ListComp, ast.SetComp, ast.GeneratorExp)):
+            elt = it.elt
+            if isinstance(elt, ast.Call) and isinstance(elt.func, ast.Attribute) and elt.func.attr in ("search", "match", "fullmatch") and not elt.keywords:
+                return frozenset({RE, N})
+            if isinstance(elt, ast.Call) and isinstance(elt.func, ast.Name) and elt.func.id == "str":
+                return frozenset({S})
         return ANY
 
     def term_ann(self, t: Any) -> ast.expr | None:
@@ -397,6 +429,27 @@ class MayRaise:
                     if ci.name in self.K.parent:
                         return frozenset({X})
                     return frozenset({("dc", ci.qual)}) if ci.is_dataclass else frozenset({O})
+            if ":" in c[1]:
+                # a module constant naming the classes: `_NUMBER_TYPES = (int, float)` / `_Number = int | float`
+                mname, cname = c[1].split(":", 1)
+                m2 = self.prog.modules.get(mname)
+                val = m2.assigns.get(cname) if m2 is not None else None
+                if isinstance(val, (ast.Tuple, ast.BinOp, ast.Name, ast.Attribute)):
+                    def of_ast(v: ast.expr) -> frozenset | None:
+                        if isinstance(v, ast.Tuple):
+                            parts = [of_ast(x) for x in v.elts]
+                            return None if any(x is None for x in parts) else frozenset().union(*parts)
+                        if isinstance(v, ast.BinOp) and isinstance(v.op, ast.BitOr):
+                            a2, b2 = of_ast(v.left), of_ast(v.right)
+                            return None if a2 is None or b2 is None else a2 | b2
+                        if isinstance(v, (ast.Name, ast.Attribute)):
+                            nm = ast.unparse(v)
+                            if nm == cname:
+                                return None
+                            return self.class_types(("global", nm if "." in nm else nm))
+                        return None
+
+                    return of_ast(val)
             return None
         if c[0] == "op" and c[1] == "|":
             a, b = self.class_types(c[2]), self.class_types(c[3])
@@ -676,6 +729,9 @@ class MayRaise:
             elif name in (".search", ".match") and args:
                 if not ty(args[0]) <= {S}:
                     out.append(Obligation(node, show(res), ("TypeError",), "regex search on a non-string"))
+            elif name in (".group", ".groups", ".groupdict", ".start", ".end", ".span") and recv is not None:
+                if not ty(recv) <= {RE}:
+                    out.append(Obligation(node, show(res), ("AttributeError",), f"match-object method on {sorted(map(str, ty(recv)))[:4]} (a search that found nothing returns None)"))
             elif name == "getattr" and len(args) == 2:
                 out.append(Obligation(node, show(res), ("AttributeError",), "getattr without a default"))
             elif name in (".get", ".items", ".keys", ".values") and recv is not None:
